@@ -23,9 +23,38 @@ ViewOfJson(j) ==
    lines  |-> { <<x[1], x[2]>> : x \in Rng(j.lines) },
    src    |-> j.src]
 
+\* the text format works on objects with plain integers (what assembling and linking produce)
+T == INSTANCE TxtFormat
+Small(q) == q[1] + 65536 * q[2]
+TxtObjOfJson(j) ==
+  LET pairs == { <<Small(x[1]), x[2]>> : x \in Rng(j.lines) }
+      mapped == { p[1] : p \in pairs }
+      addrOf(n) == (CHOOSE p \in pairs : p[1] = n)[2]
+      starts == { n \in mapped : (n - 1) \notin mapped }
+      runlen(s) == CHOOSE n \in 1..Cardinality(mapped) : (\A k \in 0..(n - 1) : (s + k) \in mapped) /\ (s + n) \notin mapped
+  IN [blocks |-> [a \in { x.s : x \in Rng(j.blocks) } |-> (CHOOSE x \in Rng(j.blocks) : x.s = a).w],
+      sym    |-> j.sym = 1,
+      labels |-> [k \in { x.k : x \in Rng(j.labels) } |-> LET x == CHOOSE x \in Rng(j.labels) : x.k = k IN [addr |-> x.a, ext |-> x.x = 1, src |-> Small(x.src)]],
+      rel    |-> [a \in { x[1] : x \in Rng(j.rel) } |-> (CHOOSE x \in Rng(j.rel) : x[1] = a)[2]],
+      dbg    |-> j.dbg = 1,
+      lines  |-> [s \in starts |-> [k \in 1..runlen(s) |-> addrOf(s + k - 1)]],
+      src    |-> j.src]
+RECURSIVE FirstDiff(_, _, _)
+FirstDiff(a, b, i) == IF i > Len(a) \/ i > Len(b) THEN i ELSE IF a[i] # b[i] THEN i ELSE FirstDiff(a, b, i + 1)
+
 FmtWhy(r) ==
   LET v == ViewOfJson(r.view) IN
   IF r.panic = 1 THEN {"panic"}
+  ELSE IF r.kind = "txt" THEN
+         LET o == TxtObjOfJson(r.view)
+             w == T!TxtWrite(o)
+             rd == T!TxtRead(r.input)
+         IN \* the real writer's text is, byte for byte, the text of the specification ...
+            (IF w = r.input THEN {} ELSE {"txt-written"})
+            \* ... the specification's reader reads the real text back as the object ...
+       \cup (IF rd.ok /\ T!View(rd.obj) = T!View(o) THEN {} ELSE {"txt-read"})
+            \* ... and so does the real reader (C18)
+       \cup (IF r.eq = 1 THEN {} ELSE {"txt-roundtrip"})
   ELSE IF r.kind = "written" THEN
          \* the real writer's bytes are a serialization of the object in the sense of the specification ...
          (IF WrittenForView(r.input, v) THEN {} ELSE {"fmt-written"})
